@@ -1,0 +1,44 @@
+//go:build verif
+
+package car
+
+// Exported wrappers around internal packages for the external verification harness
+// (build tag "verif" only). Add-only: no existing code is touched.
+
+import (
+	"context"
+	"io"
+
+	blocks "github.com/ipfs/go-block-format"
+	"github.com/ipfs/go-cid"
+	"github.com/ipld/go-car/v2/internal/carv1"
+)
+
+// VerifCarV1ReadAll drives the internal CARv1 reader: constructor, then Next until an error.
+func VerifCarV1ReadAll(r io.Reader, zeroLenAsEOF bool, maxHeader, maxSection uint64) (roots []cid.Cid, blks []blocks.Block, openErr error, endErr error) {
+	cr, err := carv1.NewCarReaderWithoutDefaults(r, zeroLenAsEOF, maxHeader, maxSection)
+	if err != nil {
+		return nil, nil, err, nil
+	}
+	roots = cr.Header.Roots
+	for {
+		b, err := cr.Next()
+		if err != nil {
+			return roots, blks, nil, err
+		}
+		blks = append(blks, b)
+	}
+}
+
+type verifPutFunc func(blocks.Block) error
+
+func (f verifPutFunc) Put(_ context.Context, b blocks.Block) error { return f(b) }
+
+// VerifCarV1LoadCar drives the internal CARv1 loader (slow path: one Put per block).
+func VerifCarV1LoadCar(put func(blocks.Block) error, r io.Reader) ([]cid.Cid, error) {
+	h, err := carv1.LoadCar(verifPutFunc(put), r)
+	if err != nil {
+		return nil, err
+	}
+	return h.Roots, nil
+}
